@@ -89,6 +89,7 @@ class GenCfg:
     corr_base: int = 100             # first correlation id of rank 0
     corr_stride: int = 100           # distance between the id ranges of consecutive ranks (0: every rank uses the same ids)
     p_unlisted_launch: float = 0.0   # a launch goes through a runtime call that is not in HTA's launch-name list
+    loner: bool = False              # an extra host thread with ONE childless operator that outlasts everything else
     p_overhang: float = 0.0          # an operator ends 1-2 us BEFORE its last child (timer glitch: not properly nested any more)
     p_nested_annotation: float = 0.0 # a child slot of an operator becomes a user annotation that wraps further operators
 
@@ -421,6 +422,9 @@ def gen_rank(rng: random.Random, cfg: GenCfg, rank: int) -> RankTrace:
     events = sim.ev
     lo = min(e["ts"] for e in events)
     hi = max(e["ts"] + e["dur"] for e in events)
+    if cfg.loner:
+        sim.host("cpu_op", "aten::linear", main_tid + 9, lo + rng.choice((0, 1, 3)), (hi - lo) + rng.choice((5, 50)), **{"Sequence number": 1})
+        hi = max(e["ts"] + e["dur"] for e in events)
     if cfg.gpu_annotations:
         ks = [e for e in events if e["pid"] == 0 and e["cat"] == "kernel"]
         if ks:
